@@ -13,6 +13,11 @@ Correspondence streams (real code vs the Lean driver executing those very defini
   search.real       real gridsearch with real fits (LinearGAM unknown/known scale, PoissonGAM with exposure, LogisticGAM,
                     GammaGAM): candidates, skipped ones, winner, self afterwards vs model `gridsearch`;
                     oracle: independent cold fits of the Cartesian product computed with itertools.
+  search.otherdata  the same pipeline with the search run on data OTHER than the data the starting model was fitted on (sub-range
+                    of the training rows, new rows over a shifted range, rows with fewer factor levels, a fresh sample of another
+                    size), all class kinds.  Oracle: with keep_best=False, or when the fitted start stays the best, the model is
+                    bit-for-bit itself afterwards (`observe_fitted`: predict_mu and partial dependence at fixed query rows,
+                    edge_knots_ / n_splines / n_coefs of every term, coef_, statistics_); candidates = cold fits on the search data.
   search.optimiser  the same pipeline over the settings that steer the optimiser: max_iter 1..200 and tol 1e-12..1e-3 on the
                     model and as grid dimensions (alone, with lam, jointly), all class kinds, fitted / unfitted start, grid as
                     given and with every axis reversed.  Oracle: score AND coefficients of every candidate equal those of an
@@ -439,6 +444,70 @@ def converged(m):
         return False
 
 
+SEARCH_DATA_KINDS = ['subrange', 'shifted', 'fewer-levels', 'new']
+
+
+def make_search_data(spec, X, y, w, e):
+    """the data the search runs on: the training data (older streams) or OTHER data -- a sub-range of the training rows, new rows
+    over a shifted / wider range, rows with fewer factor levels, a fresh sample of another size"""
+    kind = spec.get('search_data')
+    if not kind:
+        return X, y, w, e
+    if kind in ('subrange', 'fewer-levels'):
+        if kind == 'subrange':
+            mask = (X[:, 0] > 0.2) & (X[:, 0] < 0.8) & (X[:, 1] > 0.1) & (X[:, 1] < 0.9)
+        else:
+            mask = (X[:, 2] != 2) if X.shape[1] > 2 else (X[:, 0] < 0.7)
+        if mask.sum() < 40:          # keep enough rows for the independent fits
+            mask = np.zeros(len(y), dtype=bool)
+            mask[np.argsort(np.abs(X[:, 0] - 0.5))[:max(40, len(y) // 2)]] = True
+        return X[mask], y[mask], (w[mask] if w is not None else None), (e[mask] if e is not None else None)
+    X2, y2, w2, e2 = make_data(dict(spec, data_seed=spec['data_seed'] + 7919, n=spec.get('search_n', spec['n']), search_data=None))
+    if kind == 'shifted':
+        X2 = X2.copy()
+        X2[:, :2] = 0.3 + 1.2 * X2[:, :2]
+    return X2, y2, w2, e2
+
+
+def observe_fitted(gam, Q):
+    """what a fitted model IS to its user, at fixed query rows: predictions, partial dependence of every term, compiled term state
+    (edge knots, number of basis functions) -- all as exact bit patterns; a raising call is part of the observation"""
+    obs = {}
+    try:
+        obs['predict_mu'] = [_bits(v) for v in np.asarray(gam.predict_mu(Q), dtype=float).ravel()]
+    except Exception as ex:      # noqa
+        obs['predict_mu'] = 'raises ' + type(ex).__name__
+    try:
+        terms = list(gam.terms)
+    except Exception as ex:      # noqa
+        terms = []
+        obs['terms'] = 'raises ' + type(ex).__name__
+    for i, t in enumerate(terms):
+        try:
+            ek = [_bits(v) for v in _flat(getattr(t, 'edge_knots_', []))]
+            ns = [int(v) for v in _flat(getattr(t, 'n_splines', [])) if v is not None]
+            obs['term %d state' % i] = dict(edge_knots_=ek, n_splines=ns, n_coefs=int(t.n_coefs))
+        except Exception as ex:      # noqa
+            obs['term %d state' % i] = 'raises ' + type(ex).__name__
+        if getattr(t, 'isintercept', False):
+            continue
+        try:
+            obs['term %d partial_dependence' % i] = [_bits(v) for v in np.asarray(gam.partial_dependence(term=i, X=Q), dtype=float).ravel()]
+        except Exception as ex:      # noqa
+            obs['term %d partial_dependence' % i] = 'raises ' + type(ex).__name__
+    try:
+        obs['coef_'] = [_bits(v) for v in np.asarray(gam.coef_, dtype=float).ravel()]
+    except Exception as ex:      # noqa
+        obs['coef_'] = 'raises ' + type(ex).__name__
+    try:
+        st = gam.statistics_
+        obs['statistics_'] = {k: _bits(st[k]) for k in ('edof', 'scale', 'AIC', 'AICc', 'GCV', 'UBRE', 'loglikelihood', 'deviance')
+                              if k in st and st[k] is not None and np.ndim(st[k]) == 0}
+    except Exception as ex:      # noqa
+        obs['statistics_'] = 'raises ' + type(ex).__name__
+    return obs
+
+
 def coef_of(m):
     """coefficients of a model as a float vector, or None (a broken library must not crash the harness)"""
     try:
@@ -496,6 +565,8 @@ def reversed_grids(grids):
 def run_real_case(spec):
     pygam = common.import_pygam()
     X, y, w, e = make_data(spec)
+    Xs, ys, ws, es = make_search_data(spec, X, y, w, e)       # the search may run on other data than the fit before it
+    Q = np.vstack([X[:30], Xs[:30]])                          # fixed query rows
     res = dict(exc=None, oracle=[], notes={}, suspected=[], warm_only=[])
     params, want = oracle_candidates(spec)
     slots = spec_slots(spec)
@@ -525,11 +596,11 @@ def run_real_case(spec):
     pre = None
     if spec['fitted']:
         pre = dict(key=key_json(read_key(gam, params, slots)), stats=stats_of(gam), coef=[_bits(c) for c in gam.coef_],
-                   pred=[_bits(v) for v in gam.predict_mu(X)])
+                   pred=[_bits(v) for v in gam.predict_mu(X)], obs=observe_fitted(gam, Q))
     res['pre'] = pre
     gk = grids_kwargs(spec)
     try:
-        out = call_gridsearch(spec, gam, X, y, w, e, True, gk)
+        out = call_gridsearch(spec, gam, Xs, ys, ws, es, True, gk)
     except Exception as ex:      # noqa
         res['exc'] = type(ex).__name__
         res['msg'] = str(ex)[:200]
@@ -579,7 +650,7 @@ def run_real_case(spec):
 
     # ---- oracle (property text on the real code) ----------------------------------------------------
     orc = res['oracle']
-    fkw = fit_kwargs(spec, w, e)
+    fkw = fit_kwargs(spec, ws, es)       # independent fits: on the data of the search
     if robj is not None:
         # scores are the resolved objective of each returned model
         for md in models:
@@ -593,7 +664,7 @@ def run_real_case(spec):
             try:
                 c = build_model(pygam, spec, over)
                 with contextlib.redirect_stdout(io.StringIO()):
-                    c.fit(X, y, **fkw)
+                    c.fit(Xs, ys, **fkw)
                 # AIC / AICc = -2 loglik + 2 edof (+ ...): errors are measured against the size of the ingredients
                 # (the in-search fit passes explicit float32 unit weights, which perturbs loglik of a known-scale
                 # LinearGAM at 1e-7 relative; cancellation would otherwise inflate that)
@@ -602,7 +673,7 @@ def run_real_case(spec):
                     ref = max(ref, 2.0 * abs(float(c.statistics_['loglikelihood'])) + 2.0 * float(c.statistics_['edof']))
                 entry = dict(key=key_json(cand), score=float(c.statistics_[robj]), conv=converged(c), ref=max(ref, 1e-3) if ref == ref else 1.0,
                              ncoef=len(c.coef_), coef=np.array(c.coef_, dtype=float).ravel(), tol=float(c.tol),
-                             pred=c.predict_mu(X) if spec['keep_best'] else None)
+                             pred=c.predict_mu(Xs) if spec['keep_best'] else None)
                 # an independent fit that ends with nan / inf (PIRLS diverged without raising) defines no reference
                 entry['nonfinite'] = not cold_entry_finite(entry['score'], entry['coef'])
                 if 'fit_intercept' in over and not over['fit_intercept'][0]:
@@ -610,10 +681,10 @@ def run_real_case(spec):
                     over2 = dict(over, fit_intercept=[1])
                     c2 = build_model(pygam, spec, over2)
                     with contextlib.redirect_stdout(io.StringIO()):
-                        c2.fit(X, y, **fkw)
+                        c2.fit(Xs, ys, **fkw)
                     entry['alt'] = dict(score=float(c2.statistics_[robj]), conv=converged(c2), ncoef=len(c2.coef_),
                                         coef=np.array(c2.coef_, dtype=float).ravel(), tol=float(c2.tol), ref=entry['ref'],
-                                        pred=c2.predict_mu(X) if spec['keep_best'] else None)
+                                        pred=c2.predict_mu(Xs) if spec['keep_best'] else None)
                     entry['alt']['nonfinite'] = not cold_entry_finite(entry['alt']['score'], entry['alt']['coef'])
                 cold.append(entry)
             except ValueError as ex:
@@ -735,7 +806,7 @@ def run_real_case(spec):
             if spec.get('reverse') and not orc:
                 g3 = fresh(spec['fitted'])
                 try:
-                    out3 = call_gridsearch(spec, g3, X, y, w, e, True, grids_kwargs(dict(spec, grids=reversed_grids(spec['grids']))))
+                    out3 = call_gridsearch(spec, g3, Xs, ys, ws, es, True, grids_kwargs(dict(spec, grids=reversed_grids(spec['grids']))))
                 except Exception as ex:      # noqa
                     orc.append(dict(kind='the reversed grid raised where the given one did not', got=type(ex).__name__, msg=str(ex)[:200]))
                 else:
@@ -794,11 +865,21 @@ def run_real_case(spec):
                         orc.append(dict(kind='self does not hold coefficients/statistics/hyper-parameters of a minimiser',
                                         self_key=res['self_key'], argmin=[models[i]['key'] for i in arg]))
                     else:
+                        if spec['fitted'] and pre is not None and res['self_key'] == pre['key'] and scores[0] == mn and models[0]['is_self'] \
+                                and coef_of(gam) is not None and [_bits(c) for c in coef_of(gam)] == pre['coef']:
+                            # the model was already fitted and stayed the best: it ends as ITSELF -- predictions, partial dependence,
+                            # compiled terms and statistics at fixed query rows exactly as before the search
+                            post_obs = observe_fitted(gam, Q)
+                            diff = sorted(k for k in set(pre['obs']) | set(post_obs) if pre['obs'].get(k) != post_obs.get(k))
+                            res['notes']['fitted start stayed the best'] = True
+                            if diff:
+                                orc.append(dict(kind='the fitted model stayed the best but is not itself after the search', changed=diff[:8],
+                                                search_data=spec.get('search_data') or 'training data'))
                         # predictions are those of an independent fit with the winner's hyper-parameters
                         if not (spec['fitted'] and pre is not None and res['self_key'] == pre['key'] and scores[0] == mn and models[0]['is_self']):
                             cs = pool.get(json.dumps(res['self_key'])) if wantkeys == gotkeys else None
                             if cs and cs[0]['conv'] and cs[0]['pred'] is not None:
-                                p1 = gam.predict_mu(X)
+                                p1 = gam.predict_mu(Xs)
                                 d = float(np.max(np.abs(p1 - cs[0]['pred']) / np.maximum(1.0, np.abs(cs[0]['pred']))))
                                 if d > 1e-4 * FAIL_MARGIN and 'alt' in cs[0] and any(t.startswith('fit_intercept') for t in res['suspected']):
                                     ap = cs[0]['alt']['pred']
@@ -807,16 +888,22 @@ def run_real_case(spec):
                                 if d > 1e-4 * FAIL_MARGIN:
                                     orc.append(dict(kind='predictions after keep_best differ from an independent fit of the winner', maxrel=d))
         if spec['fitted'] and not spec['keep_best'] and pre is not None:
-            post = [_bits(v) for v in gam.predict_mu(X)]
-            if post != pre['pred'] or [_bits(c) for c in gam.coef_] != pre['coef'] or res['self_key'] != pre['key']:
-                orc.append(dict(kind='keep_best=False changed a fitted model'))
+            post_obs = observe_fitted(gam, Q)
+            diff = sorted(k for k in set(pre['obs']) | set(post_obs) if pre['obs'].get(k) != post_obs.get(k))
+            try:
+                post = [_bits(v) for v in gam.predict_mu(X)]
+            except Exception as ex:      # noqa
+                post = 'raises ' + type(ex).__name__
+            if post != pre['pred'] or post_obs.get('coef_') != pre['coef'] or res['self_key'] != pre['key'] or diff:
+                orc.append(dict(kind='keep_best=False changed a fitted model', changed=diff[:8] or ['predictions on the training rows / hyper-parameters'],
+                                search_data=spec.get('search_data') or 'training data'))
         if (not spec['fitted']) and not spec['keep_best'] and fitted_after:
             res['notes']['unfitted+keep_best=False ended fitted'] = True
     # ---- twin run with return_scores=False -----------------------------------------------------------
     if not spec['return_scores']:
         g2 = fresh(spec['fitted'])
         try:
-            out2 = call_gridsearch(spec, g2, X, y, w, e, False, gk)
+            out2 = call_gridsearch(spec, g2, Xs, ys, ws, es, False, gk)
             res['twin'] = dict(is_self=out2 is g2, fitted=hasattr(g2, 'coef_'),
                                same_coef=(hasattr(g2, 'coef_') and fitted_after and [_bits(c) for c in g2.coef_] == [_bits(c) for c in gam.coef_])
                                or (not hasattr(g2, 'coef_') and not fitted_after),
@@ -1255,7 +1342,7 @@ def gen_opt_specs(ctx, lits):
                               grids=[dict(param='lam', desc=dict(kind='1d', values=[0.01, 100.0], container='list')),
                                      dict(param='tol', desc=dict(kind='1d', values=[1e-3, 1e-10, 1e-6], container='list'))],
                               weights=False, exposure=False, tol=1e-8, max_iter=[4, 6][k % 2], reverse=True))
-    n_random = 40 if quick else 900
+    n_random = 30 if quick else 900
     for _ in range(n_random):
         cls = rng.choice(OPT_CLASSES + ['PoissonGAM', 'LogisticGAM', 'GammaGAM'])
         terms = gen_terms(rng, True, allow_lf=False, max_terms=2)
@@ -1303,6 +1390,57 @@ def gen_opt_specs(ctx, lits):
     return specs
 
 
+def gen_otherdata_specs(ctx, lits):
+    """searches run on data OTHER than the data the starting model was fitted on (validation subset over a sub-range, new rows
+    over a shifted range, rows with fewer factor levels, a fresh sample of another size): a fitted model is unchanged by
+    keep_best=False, ends as itself when it stays the best, and the candidates are independent fits on the search data"""
+    rng = ctx.subrng('real.otherdata')
+    quick = ctx.tier == 'quick'
+    specs = []
+
+    def terms_for(k, factor):
+        t = [dict(kind='s', feature=0, n_splines=6 + k % 3, spline_order=3, lam=0.6)]
+        if k % 2:
+            t.append(dict(kind='s', feature=1, n_splines=5 + k % 2, spline_order=2 + k % 2, lam=2.0))
+        if k % 5 == 0 and not factor:
+            t.append(dict(kind='l', feature=1, lam=0.6))
+        if factor:
+            t.append(dict(kind='f', feature=2, lam=0.6))
+        return t
+    # full product: class kind x kind of search data x keep_best, from a fitted model
+    k = 0
+    for cls in OPT_CLASSES:
+        for sd in SEARCH_DATA_KINDS:
+            for kb in (False, True):
+                k += 1
+                known = KNOWN_SCALE[cls]
+                specs.append(dict(cls=cls, scale=0.05 if cls == 'LinearGAM-known' else None, terms=terms_for(k, sd == 'fewer-levels' or k % 7 == 0),
+                                  n=[120, 140, 160][k % 3], d=3, data_seed=800 + k, fitted=True, keep_best=kb, return_scores=bool(k % 3),
+                                  objective=['auto', None, 'AIC', 'AICc'][k % 4] if kb else 'auto',
+                                  grids=[dict(param='lam', desc=dict(kind='1d', values=[[0.1, 10.0], [100.0, 0.6]][k % 2], container='list'))],
+                                  weights=(k % 4 == 1), exposure=(cls == 'PoissonGAM' and k % 2 == 0), tol=1e-8, max_iter=200,
+                                  search_data=sd, search_n=[240, 90][k % 2]))
+    n_random = 14 if quick else 600
+    for _ in range(n_random):
+        cls = rng.choice(REAL_CLASSES)
+        slow = cls in ('PoissonGAM', 'LogisticGAM', 'GammaGAM')
+        sd = rng.choice(SEARCH_DATA_KINDS)
+        terms = gen_terms(rng, rng.random() < 0.4, allow_lf=True, max_terms=2 if slow else 3)
+        if sd == 'fewer-levels' and not any(t['kind'] == 'f' for t in terms) and rng.random() < 0.8:
+            terms = [t for t in terms if t['kind'] != 'te' or True] + [dict(kind='f', feature=2, lam=0.6)]
+        grids = gen_grids(rng, terms, lits, (3 if slow else 5) if quick else (6 if slow else 12), allow_bad=False, scalars=False)
+        known = KNOWN_SCALE[cls]
+        r = rng.random()
+        objective = ('auto' if rng.random() < 0.7 else None) if r < 0.6 else rng.choice(['AIC', 'AICc', 'UBRE' if known else 'GCV'])
+        n = rng.choice([120, 140, 160])
+        specs.append(dict(cls=cls, scale=rng.choice([0.02, 0.04, 0.1]) if cls == 'LinearGAM-known' else None, terms=terms, n=n, d=3,
+                          data_seed=rng.randrange(10 ** 6), fitted=rng.random() < 0.8, keep_best=rng.random() < 0.5,
+                          return_scores=rng.random() < 0.7, objective=objective, grids=grids, weights=rng.random() < 0.3,
+                          exposure=(cls == 'PoissonGAM' and rng.random() < 0.5), tol=1e-8, max_iter=200,
+                          search_data=sd, search_n=rng.choice([80, 120, 200, 2 * n])))
+    return specs
+
+
 def gen_objective_specs(ctx):
     """full product class kind x objective name x fitted on a tiny grid"""
     specs = []
@@ -1346,8 +1484,13 @@ def run_real(ctx, pygam, lits):
     ctx.stream(st_opt, 'real gridsearch with small / large max_iter and loose / tight tol on the model and as grid dimensions, grid as given '
                        'and reversed, fitted and unfitted start, vs model gridsearch; oracle: score and coefficients of every candidate '
                        'equal those of an independent cold fit with the same max_iter / tol, converged or not')
+    st_od = 'search.otherdata'
+    ctx.stream(st_od, 'real gridsearch on data OTHER than the data the model was fitted on (sub-range, shifted range, fewer factor levels, '
+                      'fresh sample) vs model gridsearch; oracle: with keep_best=False, or when the fitted start stays the best, the model '
+                      'is bit-for-bit itself afterwards (predict_mu and partial dependence at fixed query rows, edge_knots_ / n_splines / '
+                      'n_coefs of every term, coef_, statistics_, hyper-parameters); candidates = independent cold fits on the search data')
     specs = [(st, s) for s in gen_real_specs(ctx, lits)] + [(st_obj, s) for s in gen_objective_specs(ctx)] + \
-            [(st_opt, s) for s in gen_opt_specs(ctx, lits)]
+            [(st_opt, s) for s in gen_opt_specs(ctx, lits)] + [(st_od, s) for s in gen_otherdata_specs(ctx, lits)]
     # admissible names: from a representative model of each class (public get_params) + plural names
     adm_cache = {}
     for _, s in specs:
@@ -1357,7 +1500,7 @@ def run_real(ctx, pygam, lits):
     plan_outs = ctx.driver.run([' '.join(o.split()) for o in plan_ops])
     # implementation runs (pool)
     import multiprocessing as mp
-    nproc = int(os.environ.get('VERIF_PROCS', '12' if ctx.tier == 'thorough' else '8'))
+    nproc = int(os.environ.get('VERIF_PROCS', '12'))
     with mp.Pool(nproc) as pool:
         results = pool.map(_real_worker, [s for _, s in specs], chunksize=1)
     # phase 2: model search given the observed outcomes
@@ -1407,6 +1550,11 @@ def judge_real(ctx, stream, spec, res, prep, sout):
         sig['opt'] = [spec.get('max_iter'), spec.get('tol'), bool(spec.get('reverse'))]
         ctx.count(stream + ' model max_iter', spec.get('max_iter'))
         ctx.count(stream + ' model tol', spec.get('tol'))
+    if spec.get('search_data'):
+        sig['search_data'] = [spec['search_data'], spec.get('search_n')]
+        ctx.count(stream + ' search data', spec['search_data'])
+        if (res.get('notes') or {}).get('fitted start stayed the best'):
+            ctx.count(stream + ' fitted start stayed the best (compared with itself before)', spec['search_data'])
     for k, v in (res.get('cmp_classes') or {}).items():
         ctx.count(stream + ' candidate vs independent fit (in-search/cold)', k, v)
     ctx.count(stream + ' class', spec['cls'])
@@ -1916,7 +2064,7 @@ def replay(ctx, rp):
     case = rp.get('case') or {}
     spec = case.get('spec')
     st = rp.get('stream')
-    if spec is None or st not in ('grid.scripted', 'search.real', 'objective.table', 'search.optimiser'):
+    if spec is None or st not in ('grid.scripted', 'search.real', 'objective.table', 'search.optimiser', 'search.otherdata'):
         return run(ctx)
     ctx.stream(st, 'replay')
     if st == 'grid.scripted':
